@@ -225,7 +225,10 @@ def insertion_case(ctx, language, info, ins, name, cls):
     if any(sl <= a < el or (k == "trail" and sl <= a <= el) for a, k, p in ins for _, (sl, _), (el, _), _ in base):
         ctx.count("cases.insertion_inside_function")
         ctx.distinct([language, new_text])
-    judge_pair(ctx, language, info, new_text, spans, added_before, case, cls)
+    verdict = judge_pair(ctx, language, info, new_text, spans, added_before, case, cls)
+    if verdict and len(ctx.samples) < 3:
+        ctx.sample({"language": language, "file": name, "insertions": [[a, k, p] for a, k, p in ins], "functions_in_file": len(base),
+                    "relation": "held: same names/lengths/columns, lines shifted by the lines inserted above"})
 
 
 def removal_case(ctx, language, text, name):
@@ -333,8 +336,6 @@ def run(shard, ctx):
                             [(after, "lines", [""])]):
                     ctx.count("cases.single_point")
                     insertion_case(ctx, lang, info, ins, name, "single_point")
-    ctx.sample({"language": lang, "example_insertions": [[3, "lines", comment_lines(lang, rng, 4)], [7, "trail", trailing_comment(lang, rng)],
-                                                        [9, "lines", [""]]]})
 
 
 def replay(case, ctx):
